@@ -78,6 +78,11 @@ def run(ctx):
     from . import c02
     with ctx.renamed({"R02.1": "R03.5", "R02.2": "R03.5", "R02.3": "R03.5"}):
         c02.direction_rules(ctx)
+    # ---- R03.6 no unsynchronised derived state on the objects this property queries (shared rule, see statecache.py)
+    from ..statecache import instance_memo_rule as _memo, positive_example as _memo_pos
+    _memo(ctx, "R03.6", [p.get_class("wavespectra.spectrum.FrequencySpectrum"), p.get_class("wavespectra.spectrum.FrequencyDirectionSpectrum")], "spectrum classes")
+    _memo_pos(ctx, "R03.6")
+    ctx.require_count("R03.6", 2)
     ctx.require_count("R03.5", 10)
     ctx.require_count("R03.1", 8)
     ctx.require_count("R03.2", 6)
